@@ -147,6 +147,9 @@ def run_schedule(case, choices, drops_per_op):
                 break
             options = [(j, "answer") for j in range(len(sched.pending))]
             options += [(j, "drop") for j, p in enumerate(sched.pending) if p["op"] is not None and drops[p["op"]] < drops_per_op]
+            if case.get("cancels", 0) > info.get("cancelled_n", 0) and len({p["op"] for p in sched.pending}) >= 2:
+                # the caller of one operation gives up (its task is cancelled) while others are in flight
+                options += [(j, "cancel") for j in range(len(sched.pending))]
             c = choices[step] if step < len(choices) else 0
             c %= len(options)
             info["branch"].append(len(options))
@@ -156,6 +159,12 @@ def run_schedule(case, choices, drops_per_op):
             if action == "answer" and issue_order[id(sched.pending[j])] != min(issue_order[id(p)] for p in sched.pending):
                 info["reordered"] = True
             p = sched.pending[j]
+            if action == "cancel":
+                info["cancelled_n"] = info.get("cancelled_n", 0) + 1
+                info.setdefault("cancelled_ops", []).append(p["op"])
+                sched.pending.pop(j)
+                tasks[p["op"]].cancel()
+                continue
             if action == "drop":
                 drops[p["op"]] += 1
                 info["dropped"] += 1
@@ -171,8 +180,11 @@ def run_schedule(case, choices, drops_per_op):
             except vagent.AgentInternalError as e:
                 p["fut"].set_exception(e)
                 info["agent_error"] = str(e)
-        for t in tasks:
-            if t.done() and not t.cancelled() and t.exception() is not None:
+        for i, t in enumerate(tasks):
+            if t.cancelled() and i not in info.get("cancelled_ops", []):
+                info["task_error"] = "operation %d was cancelled although only operation(s) %s were given up by their caller" % (
+                    i, info.get("cancelled_ops", []))
+            elif t.done() and not t.cancelled() and t.exception() is not None:
                 info["task_error"] = repr(t.exception())
 
     with vclock.fixed(case.get("clock", 1_700_000_000), [case.get("clock_inc", 0.4)]):
@@ -210,6 +222,9 @@ def judge(case, outcomes, info) -> Result:
         classes.append("reordered")
     if info["dropped"]:
         classes.append("dropped")
+    if info.get("cancelled_n"):
+        classes.append("one_caller_cancelled")
+        nontrivial = nontrivial or info["max_parallel"] >= 2
     key = (vworld.proto_label(case["proto"]), case.get("clients", 1), tuple(map(tuple, ops)), tuple(info["taken"]),
            case.get("clock_inc"))
     head = "%s ops=%s schedule=%s" % (vworld.proto_label(case["proto"]), ops, info["taken"])
@@ -225,6 +240,8 @@ def judge(case, outcomes, info) -> Result:
             return Result("%s: the agent answered %s to a request (mixed-up users / keys / engine data?)" % (head, r.get("verdict")),
                           nontrivial, classes, key=key)
     for i, out in enumerate(outcomes):
+        if i in info.get("cancelled_ops", []):
+            continue      # this operation was given up by its own caller
         a = alone(case, i, info.get("drops", {}).get(i, 0))
         if a == ("F10B",):
             continue
@@ -290,6 +307,11 @@ def dfs_unit(check, stats: Stats, *, groups, label, known_ids=(), budget=4000, d
 
 
 FIXED = ["get", "getnext", "walk", "bulkwalk", "set", "multiget"]
+# two users of one engine that share pass-phrases but not the hash (defeats caches keyed without the auth protocol)
+SHARED_SECRET_USERS = [
+    {"v": "3", "user": "ops-md5", "algo": "md5", "auth_pw": b"one-shared-passphrase".hex(), "priv_pw": b"one-shared-passphrase".hex(), "priv": "verifstream"},
+    {"v": "3", "user": "ops-sha", "algo": "sha1", "auth_pw": b"one-shared-passphrase".hex(), "priv_pw": b"one-shared-passphrase".hex(), "priv": "verifstream"},
+]
 
 
 def groups_for(tier):
@@ -300,6 +322,12 @@ def groups_for(tier):
             out.append(dict(proto=p, clients=1, ops=[[0, FIXED[a]], [0, FIXED[b]]], clock_inc=0.4))
         out.append(dict(proto=p, proto2=vworld.V3_PROTOS[1] if p["v"] == "3" else {"v": "2c", "community": "public"},
                         clients=2, ops=[[0, "get"], [1, "walk"]], clock_inc=0.4))
+        if p["v"] == "3" and p is vworld.V3_PROTOS[3]:
+            out.append(dict(proto=SHARED_SECRET_USERS[0], proto2=SHARED_SECRET_USERS[1], clients=2, ops=[[0, "get"], [1, "get"]], clock_inc=0.4))
+            out.append(dict(proto=SHARED_SECRET_USERS[1], proto2=SHARED_SECRET_USERS[0], clients=2, ops=[[0, "walk"], [1, "get"]], clock_inc=0.4))
+        # one caller gives up while the other operation is in flight (all points of cancellation)
+        out.append(dict(proto=p, clients=1, ops=[[0, "get"], [0, "get"]], clock_inc=0.4, cancels=1))
+        out.append(dict(proto=p, clients=1, ops=[[0, "walk"], [0, "get"]], clock_inc=0.4, cancels=1))
         triples = list(itertools.combinations(["get", "getnext", "set", "multiget"], 3))
         if tier == "quick":
             triples = triples[:1]
@@ -324,10 +352,13 @@ def cases(draw):
     case = dict(proto=proto, clients=nclients, clock_inc=draw(st.sampled_from([0, 0.4, 1.0, 1.7])),
                 clock=draw(st.sampled_from([1_700_000_000, 5, 2 ** 31 - 10 ** 6])), drops_per_op=2)
     if nclients == 2:
-        case["proto2"] = draw(st.sampled_from([p for p in [vworld.V2C_PROTO] + vworld.V3_PROTOS[1:] if p["v"] == proto["v"]]))
+        case["proto2"] = draw(st.sampled_from([p for p in [vworld.V2C_PROTO] + vworld.V3_PROTOS[1:] + SHARED_SECRET_USERS if p["v"] == proto["v"]]))
+        if proto["v"] == "3" and draw(st.booleans()):
+            case["proto"], case["proto2"] = SHARED_SECRET_USERS
     n = draw(st.integers(2, 6))
     case["ops"] = [[draw(st.integers(0, nclients - 1)), draw(st.sampled_from(OPNAMES))] for _ in range(n)]
-    case["choices"] = draw(st.lists(st.integers(0, 11), min_size=0, max_size=40))
+    case["choices"] = draw(st.lists(st.integers(0, 17), min_size=0, max_size=40))
+    case["cancels"] = draw(st.sampled_from([0, 0, 1]))
     return case
 
 
